@@ -83,6 +83,10 @@ pub enum Meta {
     AltInvoice { amount: Option<u64> },
     /// explicit payee field that the signature does not verify against
     BadSig,
+    /// 33001 with a valid invoice naming its payee explicitly, signature recovery id flipped
+    FlippedRecid,
+    /// 33001 with a valid invoice whose expiry field is not minimally encoded
+    NonMinimalExpiry,
     NotUtf8,
     NotBolt11,
     /// TLV 16 present with these raw bytes as value
@@ -155,6 +159,8 @@ pub enum Step {
     Flush,
     /// answer the i-th answerable RPC with a JSON-RPC error of this code (no effect)
     AnswerErr(u16, i32),
+    /// from now on getinfo replies carry (true) / do not carry (false) the sync warnings
+    SyncWarning(bool),
 }
 
 #[derive(Clone, Debug, Serialize, Deserialize, PartialEq)]
@@ -193,6 +199,9 @@ pub struct Scenario {
     /// node-side effects during which it is withheld); released at the latest when nothing else can happen
     #[serde(default)]
     pub hold: Vec<(u16, u16)>,
+    /// with manual_getinfo: polls after the startup one are never answered (a stuck getinfo)
+    #[serde(default)]
+    pub freeze_polls: bool,
 }
 
 #[derive(Clone, Copy, Debug, Serialize, Deserialize, PartialEq, Eq, Hash)]
@@ -239,6 +248,12 @@ pub enum InvKind {
     Normal,
     Alt(Option<u64>),
     BadSig,
+    /// valid signature, but the expiry field is encoded with a leading zero group: parsing and
+    /// re-serialising the invoice gives a different string
+    NonMinimalExpiry,
+    /// explicit payee field + a signature whose recovery id is flipped: verifies against the payee
+    /// field (the recovery id is ignored then) but recovers to an unrelated key
+    FlippedRecid,
 }
 
 /// Builds the bech32 invoice string for a payment (deterministic).
@@ -275,6 +290,27 @@ pub fn build_invoice(p: &PaymentSpec, kind: InvKind) -> String {
     }
     let dest = dest_secret();
     match kind {
+        InvKind::NonMinimalExpiry => {
+            use bech32::u5;
+            let mut raw = b.build_raw().expect("raw invoice");
+            // tag 6 (`x`, expiry), data length 4, value 3600 = [3,16,16] in base 32 with a leading 0
+            let field: Vec<u5> = [6u8, 0, 4, 0, 3, 16, 16].iter().map(|v| u5::try_from_u8(*v).unwrap()).collect();
+            raw.data.tagged_fields.push(lightning_invoice::RawTaggedField::UnknownSemantics(field));
+            let signed = raw.sign::<_, ()>(|h| Ok(secp.sign_ecdsa_recoverable(h, &dest))).unwrap();
+            signed.to_string()
+        }
+        InvKind::FlippedRecid => {
+            let raw = b.payee_pub_key(pubkey(&dest)).build_raw().expect("raw invoice");
+            let signed = raw
+                .sign::<_, ()>(|h| {
+                    let sig = secp.sign_ecdsa_recoverable(h, &dest);
+                    let (id, bytes) = sig.serialize_compact();
+                    let flipped = secp256k1::ecdsa::RecoveryId::from_i32(id.to_i32() ^ 1).unwrap();
+                    Ok(secp256k1::ecdsa::RecoverableSignature::from_compact(&bytes, flipped).unwrap())
+                })
+                .unwrap();
+            signed.to_string()
+        }
         InvKind::BadSig => {
             // explicit payee = `other`, but signed by `dest`: check_signature must fail
             let raw = b.payee_pub_key(other).build_raw().expect("raw invoice");
@@ -329,6 +365,20 @@ impl Scenario {
                 encode_stream(&recs)
             }
             Meta::BadSig => encode_stream(&[(TLV_INVOICE, inv(InvKind::BadSig)), (TLV_AMOUNT, tu64_min(p.tlv_amount))]),
+            Meta::NonMinimalExpiry => {
+                let mut recs = vec![(TLV_INVOICE, inv(InvKind::NonMinimalExpiry))];
+                if p.invoice_amount.is_none() {
+                    recs.push((TLV_AMOUNT, tu64_min(p.tlv_amount)));
+                }
+                encode_stream(&recs)
+            }
+            Meta::FlippedRecid => {
+                let mut recs = vec![(TLV_INVOICE, inv(InvKind::FlippedRecid))];
+                if p.invoice_amount.is_none() {
+                    recs.push((TLV_AMOUNT, tu64_min(p.tlv_amount)));
+                }
+                encode_stream(&recs)
+            }
             Meta::NotUtf8 => encode_stream(&[(TLV_INVOICE, vec![0xff, 0xfe, 0x80, 0x6c, 0x6e]), (TLV_AMOUNT, tu64_min(p.tlv_amount))]),
             Meta::NotBolt11 => encode_stream(&[(TLV_INVOICE, b"lnbc1notaninvoice".to_vec()), (TLV_AMOUNT, tu64_min(p.tlv_amount))]),
             Meta::RawMeta(b) => b.0.clone(),
@@ -435,6 +485,8 @@ impl Scenario {
                 };
             }
             Meta::Normal => (InvKind::Normal, if p.invoice_amount.is_none() { Some(tu64_min(p.tlv_amount)) } else { None }),
+            Meta::FlippedRecid => (InvKind::FlippedRecid, if p.invoice_amount.is_none() { Some(tu64_min(p.tlv_amount)) } else { None }),
+            Meta::NonMinimalExpiry => (InvKind::NonMinimalExpiry, if p.invoice_amount.is_none() { Some(tu64_min(p.tlv_amount)) } else { None }),
             Meta::WithAmount(a) => (InvKind::Normal, Some(a.0.clone())),
             Meta::InvoiceOnly => (InvKind::Normal, None),
             Meta::AltInvoice { amount } => (InvKind::Alt(*amount), if amount.is_none() { Some(tu64_min(p.tlv_amount)) } else { None }),
@@ -864,7 +916,7 @@ pub fn scenario_strategy(prof: Profile) -> BoxedStrategy<Scenario> {
                             htlcs.swap(i, j);
                         }
                     }
-                    Scenario { cfg, payments, htlcs, steps, write_faults, read_faults, start_height, tokio_seed, c16_profile: false, probe, direct: vec![], initial_parts: vec![], manual_getinfo: false, crash_at: vec![], freeze: None, hold }
+                    Scenario { cfg, payments, htlcs, steps, write_faults, read_faults, start_height, tokio_seed, c16_profile: false, probe, direct: vec![], initial_parts: vec![], manual_getinfo: false, crash_at: vec![], freeze: None, hold, freeze_polls: false }
                 },
             )
         })
